@@ -462,7 +462,7 @@ var fnInfos = map[*ssa.Function]*fnInfo{}
 type tnode struct {
 	b    *ssa.BasicBlock
 	only int
-	bk   string // which incoming edge the flag-like phis passed so far took (see pathsens.go)
+	bk   int // which incoming edge the flag-like phis passed so far took (an interned set, see pathsens.go)
 }
 
 type edgeKey struct{ from, to *ssa.BasicBlock }
@@ -565,10 +565,31 @@ func threadOutcome1(p, s *ssa.BasicBlock) int {
 	if !known {
 		// the same comparison was already decided on the way in (a second `err != nil` after
 		// `if err != nil && ...`): go/ssa does not share the two, the operands are the same values
-		for _, g := range append(directGuardsOfEdge(p, s), plainGuards(p)...) {
-			if same, inv := SameCond(g.Cond, ifi.Cond); same {
-				v, known = g.Val != inv, true
-				break
+		// (not when the tested value is computed anew on entering s from something s itself merges - a loop
+		// header's own condition over its induction phi: the earlier outcome is about the previous round)
+		var stale func(v ssa.Value, d int) bool
+		stale = func(v ssa.Value, d int) bool {
+			in, ok := v.(ssa.Instruction)
+			if !ok || in.Block() != s || d > 6 {
+				return false
+			}
+			if _, isPhi := v.(*ssa.Phi); isPhi {
+				return true
+			}
+			var ops []*ssa.Value
+			for _, op := range in.Operands(ops) {
+				if op != nil && *op != nil && stale(*op, d+1) {
+					return true
+				}
+			}
+			return false
+		}
+		if !stale(ifi.Cond, 0) {
+			for _, g := range append(directGuardsOfEdge(p, s), plainGuards(p)...) {
+				if same, inv := SameCond(g.Cond, ifi.Cond); same {
+					v, known = g.Val != inv, true
+					break
+				}
 			}
 		}
 	}
@@ -704,7 +725,7 @@ func plainGuards(b *ssa.BasicBlock) []Guard {
 
 func (n tnode) succs() []tnode {
 	var out []tnode
-	bd := bindTable[n.bk]
+	bd := bindSets[n.bk]
 	targets := n.b.Succs
 	if n.only >= 0 {
 		targets = []*ssa.BasicBlock{n.b.Succs[n.only]}
@@ -731,7 +752,7 @@ func reachableFromEntry(fn *ssa.Function, cutFrom, cutTo *ssa.BasicBlock) map[*s
 		return reached
 	}
 	seen := map[tnode]bool{}
-	start := tnode{fn.Blocks[0], -1, ""}
+	start := tnode{fn.Blocks[0], -1, 0}
 	stack := []tnode{start}
 	seen[start] = true
 	reached[start.b] = true
@@ -1006,7 +1027,7 @@ func FindPathSkipping(fn *ssa.Function, from ssa.Instruction, to, avoid func(ssa
 	seen := map[tnode]bool{}
 	var queue []*node
 	if from == nil {
-		start = &node{t: tnode{fn.Blocks[0], -1, ""}}
+		start = &node{t: tnode{fn.Blocks[0], -1, 0}}
 		seen[start.t] = true
 		if f, blocked := scan(nil, start.t.b, 0); f != nil {
 			return []ssa.Instruction{f}
@@ -1015,7 +1036,7 @@ func FindPathSkipping(fn *ssa.Function, from ssa.Instruction, to, avoid func(ssa
 		}
 	} else {
 		// the block of `from` is entered in the middle: its final branch is open
-		start = &node{t: tnode{from.Block(), -1, ""}}
+		start = &node{t: tnode{from.Block(), -1, 0}}
 		if f, blocked := scan(nil, start.t.b, idxIn(from)+1); f != nil {
 			return []ssa.Instruction{from, f}
 		} else if blocked {
